@@ -17,14 +17,15 @@
 //     say the same (every reference the same ranges, in any order) after a
 //     validator ran as before.
 //
-// A failure is blamed on aliasing (the validators sort and append to range arrays
-// that belong to the log) exactly when the log no longer says what it said before
-// the validators ran.  Such a failure is the listed finding
-// C10-shared-backing-append only if the log has a range slice with fewer than two
-// elements and spare capacity (the one case the unchanged code does not
-// re-allocate before appending) and every write to the memory behind the log so
-// far was either a permutation inside one slice or within reach (cap) of such a
-// small slice; otherwise it is a violation.
+// A failure is blamed on aliasing (the validators sort range arrays that belong
+// to the log; they must not write anything else into them) exactly when the log no
+// longer says what it said before the validators ran.  That is a violation for
+// every memory layout, slices of fewer than two ranges with spare capacity
+// included (the repaired finding C10-shared-backing-append: References.SortAndMerge
+// appended into such a slice).  Likewise an actor without a code byte must not be
+// reported (repaired C10-empty-code-range) and a measurement given as image offsets
+// covers a file given by physical addresses (repaired C10-final-mixed-address-space).
+// The only listed finding left is C10-D6-foreign-artifact.
 package main
 
 import (
@@ -245,33 +246,22 @@ type expIssue struct {
 
 // blame: how a failure observed in stage k is to be reported
 type blame struct {
-	aliasing bool   // the log had been changed by then
-	known    string // finding id if it is the listed one
+	aliasing bool // the log had been changed by then
 	note     string
 }
 
-func (f *hflow) oracle(c *gal.Ctx, idx int, res *runResult, stages []stageObs, snap0 []string, smallSpare bool, vni validator.Issues) {
+func (f *hflow) oracle(c *gal.Ctx, idx int, res *runResult, stages []stageObs, snap0 []string, vni validator.Issues) {
 	rank := f.ranks()
 
 	// ----- the log says the same after validation -----
 	blames := make([]blame, len(stages))
 	firstChanged := -1
-	listed := smallSpare // may a rewrite of the log still be the listed finding?
-	listedAtFirst := false
 	for k, st := range stages {
-		if st.foreign != "" {
-			// a write that is not the listed finding: nothing from here on is attributed to it
-			listed = false
-		}
 		if d := snapDiff(snap0, st.snap); d != "" {
 			if firstChanged < 0 {
-				firstChanged, listedAtFirst = k, listed
+				firstChanged = k
 			}
-			b := blame{aliasing: true, note: fmt.Sprintf(" [the log had been rewritten by %s: %s]", stages[firstChanged].name(), snapDiff(snap0, stages[firstChanged].snap))}
-			if listed {
-				b.known = findBacking
-			}
-			blames[k] = b
+			blames[k] = blame{aliasing: true, note: fmt.Sprintf(" [the log had been rewritten by %s: %s]", stages[firstChanged].name(), snapDiff(snap0, stages[firstChanged].snap))}
 		}
 	}
 	if firstChanged < 0 {
@@ -287,11 +277,7 @@ func (f *hflow) oracle(c *gal.Ctx, idx int, res *runResult, stages []stageObs, s
 		if st.kind == 1 {
 			site = siteVFC
 		}
-		if listedAtFirst {
-			c.OracleFailKnown(idx, findBacking, what, site, f.descr())
-		} else {
-			c.OracleFail(idx, what, site, f.descr())
-		}
+		c.OracleFail(idx, what, site, f.descr())
 	}
 
 	// ----- walk the flow description -----
@@ -416,11 +402,7 @@ func (f *hflow) oracle(c *gal.Ctx, idx int, res *runResult, stages []stageObs, s
 			if b.kind == 1 {
 				site = siteVFC
 			}
-			if blames[k].known != "" {
-				c.OracleFailKnown(idx, blames[k].known, what, site, f.descr())
-			} else {
-				c.OracleFail(idx, what, site, f.descr())
-			}
+			c.OracleFail(idx, what, site, f.descr())
 		}
 		return
 	}
@@ -444,7 +426,7 @@ func (f *hflow) oracleVAP(c *gal.Ctx, idx int, rank map[string]int, st stageObs,
 			what = st.name() + ": " + what + bl.note
 		}
 		if bl.aliasing {
-			known = bl.known
+			known = "" // a consequence of the rewritten log, never of a listed finding
 		}
 		if known != "" {
 			c.OracleFailKnown(idx, known, what, siteVAP, f.descr())
@@ -455,9 +437,6 @@ func (f *hflow) oracleVAP(c *gal.Ctx, idx int, rank map[string]int, st stageObs,
 	knownFor := func(step int, extra bool) string {
 		if f.d6 {
 			return findD6
-		}
-		if extra && f.emptyC && emptyCodeStep[step] {
-			return findEmpty
 		}
 		return ""
 	}
@@ -521,7 +500,7 @@ func (f *hflow) oracleVFC(c *gal.Ctx, idx int, st stageObs, bl blame, allMeasure
 			what = st.name() + ": " + what + bl.note
 		}
 		if bl.aliasing {
-			known = bl.known
+			known = "" // a consequence of the rewritten log, never of a listed finding
 		}
 		if known != "" {
 			c.OracleFailKnown(idx, known, what, siteVFC, f.descr())
@@ -532,8 +511,6 @@ func (f *hflow) oracleVFC(c *gal.Ctx, idx int, st stageObs, bl blame, allMeasure
 	known := ""
 	if f.d6 {
 		known = findD6
-	} else if f.mixedFC {
-		known = findMixed
 	}
 	if vfcPanic {
 		fail("", "ValidatorFinalCoverageIsComplete panicked on a well-formed log")
